@@ -39,7 +39,7 @@ def index_struct_state(crate, ex, st, cap, vec=None, present=None):
 def push_step(crate, L=6):
     """C01: one step of IndexStruct::push from an arbitrary I-sorted per-key vector of length <= L."""
     res = P.ObResult("push_step[L<=%d]" % L)
-    body = crate.find(r"blob::index::core::<impl at [^>]*>::push$")
+    body = crate.method("IndexStruct", "push", "IndexTrait")
     res.functions = ["IndexStruct::<FileIndex,K>::push (generic MIR)", "push::{closure#0}", "push::{closure#1}",
                      "RecordHeader::timestamp", "InMemoryData::register_record_allocation"]
     res.bounds = "per-key vector length <= %d (capacity %d), loop bound %d" % (L, L + 1, L + 3)
@@ -142,7 +142,7 @@ def _post_vec(crate, o, iref):
 def get_latest_mem(crate, L=6):
     """C01: IndexStruct::get_latest on an in-memory index: Found(last) / Deleted(ts(last)) / NotFound iff no vector."""
     res = P.ObResult("get_latest_mem[L<=%d]" % L)
-    body = crate.find(r"blob::index::core::<impl at [^>]*>::get_latest::\{closure#0\}$")
+    body = crate.closure0(crate.method("IndexStruct", "get_latest", "IndexTrait"))
     res.functions = ["<IndexStruct as IndexTrait>::get_latest::{closure#0} (async body)", "get_latest::{closure#0}::{closure#0}",
                      "RecordHeader::is_deleted", "RecordHeader::timestamp", "BlobRecordTimestamp::new"]
     res.bounds = "per-key vector length <= %d" % L
@@ -227,7 +227,7 @@ def get_all_marker(crate, L=6, strip=False):
     result = newest-first list cut right after the first deletion marker (get_all: without that marker)."""
     fn = "get_all" if strip else "get_all_with_deletion_marker"
     res = P.ObResult("%s_mem[L<=%d]" % (fn, L))
-    body = crate.find(r"blob::index::core::<impl at [^>]*>::%s::\{closure#0\}$" % fn)
+    body = crate.closure0(crate.method("IndexStruct", fn, "IndexTrait"))
     res.functions = ["<IndexStruct as IndexTrait>::%s::{closure#0}" % fn, "get_all_with_deletion_marker::{closure#0} + closures",
                      "RecordHeader::is_deleted"]
     res.bounds = "per-key vector length <= %d" % L
@@ -287,3 +287,87 @@ def get_all_marker(crate, L=6, strip=False):
 
 def get_all_mem(crate, L=6):
     return get_all_marker(crate, L=L, strip=True)
+
+
+def _default_hook(crate):
+    def hook(ex, st, like, ty):
+        t = getattr(like, "ty", ty) or ty
+        if "InMemoryData" in t:
+            data = Obj(t)
+            m = Obj("BTreeMap<K, Vec<Header>>")
+            m.fields[("m", "present")] = Sym(z3.BoolVal(False), "bool")
+            m.fields[("m", "others")] = Sym(BV64(0), "usize")
+            m.fields[("m", "val")] = VecV(P.HEADER_TY, ex.cap, Sym(BV64(0), "usize"))
+            mem = Obj("MemoryAttrs<K>")
+            mem.fields[(None, crate.field_index("MemoryAttrs", "records_count"))] = Sym(BV64(0), "usize")
+            mem.fields[(None, crate.field_index("MemoryAttrs", "records_allocated"))] = Sym(BV64(0), "usize")
+            data.fields[(None, crate.field_index("InMemoryData", "headers"))] = m
+            data.fields[(None, crate.field_index("InMemoryData", "mem"))] = mem
+            return data
+        return None
+    return hook
+
+
+def dump_failure_keeps_headers(crate, L=3):
+    """C11: IndexStruct::dump_in_memory: if building the index file fails, the in-memory headers (the only copy of the
+    index) are still in place afterwards; on success the index is OnDisk."""
+    res = P.ObResult("dump_failure_keeps_headers")
+    res.finding_key = "dump_in_memory-loses-headers-on-error"
+    fn = crate.method("IndexStruct", "dump_in_memory")
+    res.functions = ["IndexStruct::dump_in_memory (async body)"]
+    res.bounds = "per-key vector length <= %d, every outcome of serialize_filters / from_records" % L
+    ex = P.mk_executor(crate, cap=L, loop_bound=4, inline=INLINE_INDEX,
+                       havoc=[r"^<FileIndex as .*FileIndexTrait<K>>::"])
+    ex.default_hook = _default_hook(crate)
+    st = State()
+    iref, m, mem, v = index_struct_state(crate, ex, st, L)
+    present0 = m.fields[("m", "present")].t
+    others0 = m.fields[("m", "others")].t
+    n0 = v.len.t
+    olds = [(hdr(crate, e, "seq"), hdr(crate, e, "timestamp")) for e in v.elems]
+    st.pc.append(z3.Implies(present0, z3.UGT(n0, BV64(0))))
+    iref_mut = Ref(iref.cell, (), True, "&mut IndexStruct<FileIndex, K>")
+    outs = P.drive_async(ex, st, fn, [iref_mut, Sym(z3.BitVec("blob_size", 64), "u64")])
+    res.paths = len(outs)
+    ST = crate.enums["State"]
+    for o in outs:
+        if o.status in ("infeasible", "unwind"):
+            continue
+        if o.status != "returned":
+            if not P.prove(ex, res, o, z3.BoolVal(False), "no panic (%s: %s)" % (o.status, o.note)):
+                break
+            continue
+        ready, isok, payload = P.result_of(ex, o)
+        idx_o = o.mem[iref.cell]
+        state = idx_o.fields[(None, crate.field_index("IndexStruct", "inner"))]
+        sd = ex.get_discr(o, state).t
+        nonempty = z3.Or(present0, others0 != BV64(0))
+        if not P.prove(ex, res, o, z3.Implies(z3.And(isok, nonempty), sd == BV64(ST["OnDisk"])), "Ok on a non-empty index => index is on disk"):
+            break
+        if ("InMemory", 0) in state.fields:
+            data = state.fields[("InMemory", 0)].fields.get((None, 7000))
+            m2 = data.fields.get((None, crate.field_index("InMemoryData", "headers"))) if data is not None else None
+            if m2 is None or ("m", "present") not in m2.fields:
+                res.status = "violated"; res.detail = "in-memory map missing after the call"; break
+            p2 = m2.fields[("m", "present")].t
+            v2 = m2.fields[("m", "val")]
+            keep = [p2 == present0]
+            if isinstance(v2, VecV):
+                keep.append(z3.Implies(present0, v2.len.t == n0))
+                for k in range(min(L, v2.cap)):
+                    e = v2.elems[k]
+                    if e is None:
+                        keep.append(z3.Not(z3.And(present0, z3.ULT(BV64(k), n0))))
+                        continue
+                    keep.append(z3.Implies(z3.And(present0, z3.ULT(BV64(k), n0)),
+                                           z3.And(hdr(crate, e, "seq") == olds[k][0], hdr(crate, e, "timestamp") == olds[k][1])))
+            if not P.prove(ex, res, o, z3.Implies(z3.And(z3.Not(isok), sd == BV64(ST["InMemory"])), z3.And(keep)),
+                           "Err => in-memory headers unchanged"):
+                res.replay = {"kind": "native", "test": "c11_failed_index_dump_keeps_records_readable"}
+                break
+        if not P.prove(ex, res, o, z3.Implies(z3.Not(isok), sd == BV64(ST["InMemory"])), "Err => index still in memory"):
+            break
+        P.cover(ex, res, o, z3.And(z3.Not(isok), present0), "dump failed with headers present")
+        P.cover(ex, res, o, z3.And(isok, present0), "dump succeeded")
+        P.cover(ex, res, o, z3.And(isok, z3.Not(nonempty)), "empty index: nothing dumped")
+    return P.finish(ex, res, ["dump failed with headers present", "dump succeeded", "empty index: nothing dumped"])
